@@ -1,6 +1,6 @@
 (* Proofs/UnitCatalogueProofs.v - facts about the REGENERATED catalogue (Gen/UnitCatalogue.v): re-proved on every run *)
 From Coq Require Import QArith List ZArith Bool String Ascii Lia Lqa.
-From Verif Require Import Base.Flat Model.UnitAlg Proofs.UnitAlgProofs Model.UnitReader Proofs.UnitReaderProofs Gen.UnitCatalogue.
+From Verif Require Import Base.Flat Model.UnitAlg Proofs.UnitAlgProofs Model.UnitReader Proofs.UnitReaderProofs Gen.UnitCatalogue Gen.UnitReference.
 Import ListNotations.
 Open Scope string_scope.
 Open Scope Q_scope.
@@ -35,3 +35,11 @@ Fixpoint param_index (name : string) (l : list (string * bool * bool * string * 
   | [] => O
   | (n, _, _, _, _, _) :: r => if String.eqb n name then O else S (param_index name r)
   end.
+
+(* the live registry gives every unit of the frozen independent reference its documented meaning (to 1e-9):
+   a unit redefined in GEOPHIRES3_newunits.txt (MMBTU, cents, KUSD ...) or in pint breaks this proof *)
+Lemma gen_reference_forallb : forallb (ref_entry_ok (1 # 1000000000) gen_tables) ref_units = true.
+Proof. vm_compute. reflexivity. Qed.
+
+Lemma gen_reference_agrees : forall e, In e ref_units -> ref_entry_ok (1 # 1000000000) gen_tables e = true.
+Proof. apply forallb_forall. exact gen_reference_forallb. Qed.
